@@ -107,7 +107,7 @@ def execute(case):
             kind, s = frame[0], frame[1]
             src = SRC[s]
             mine = s == "p"
-            meta = {"kind": kind, "from": s, "req": cur["req"], "after_tx": cur["req"] is not None and bool(data_tx_since(cur["tx0"])), "ref_open": ref["open"] and mine, "ref_R": ref["R"] if mine else None}
+            meta = {"kind": kind, "from": s, "req": cur["req"], "after_tx": cur["req"] is not None and bool(data_tx_since(cur["tx0"])), "ref_open": ref["open"] and mine, "ref_R": ref["R"] if mine else None, "epoch": len(obs["epochs"])}
             if kind in ("ack", "nak"):
                 n = (last_own_seq() + int(frame[2])) & 0xF
                 tg = inj.ack(n) if kind == "ack" else inj.nak(n)
@@ -244,6 +244,24 @@ def _frame_cause(rec):
     return {"ack": "TAck-TNak", "nak": "TAck-TNak", "disc": "TDisconnect", "data": "TDataConnected", "conn": "TConnect"}[rec["kind"]]
 
 
+def _ambiguous_before(obs, rec, returned) -> bool:
+    """True if, earlier in the same connection epoch, the reference receive counter may be ahead of a
+    conforming client: an in-sequence frame that no request ever returned (a client whose single
+    response slot was occupied may have discarded it), or a T_Connect of the peer on the open
+    connection (undefined in 03_03_04 for the client role). The statement does not say what the
+    expected number is afterwards, so number judgements are skipped there."""
+    for r in reversed(obs["rx"][: rec["i"]]):
+        if r.get("epoch") != rec.get("epoch"):
+            break
+        if r["from"] != "p":
+            continue
+        if r["kind"] == "conn" and r["ref_open"]:
+            return True
+        if r["kind"] == "data" and r["fresh"] and r["uid"] not in returned:
+            return True
+    return False
+
+
 def judge(ctx, case, obs) -> None:
     from xknx.exceptions import ManagementConnectionError
 
@@ -264,6 +282,7 @@ def judge(ctx, case, obs) -> None:
             ctx.fail(f"C43:{what}-raised-undeclared:{exc_site(info)}", inp, repr(info))
     # (2) request outcomes
     by_uid = {r["uid"]: r for r in rx if r.get("uid") is not None}
+    returned = {rq["outcome"][2] for rq in obs["reqs"] if rq["outcome"] is not None and rq["outcome"][0] == "ok"}
     used: dict[int, int] = {}
     for qi, rq in enumerate(obs["reqs"]):
         out = rq["outcome"]
@@ -297,6 +316,8 @@ def judge(ctx, case, obs) -> None:
         used.setdefault(rid, qi)
         if rec["req"] != qi or not rec["after_tx"]:
             ctx.fail("C43:response:stale", inp, f"request #{qi} returned frame #{rec['i']} (seq {seq}) that was received {'during request #%s' % rec['req'] if rec['req'] is not None else 'while no request was active'}{'' if rec['after_tx'] else ', before the request frame was transmitted'}")
+        elif not rec["fresh"] and _ambiguous_before(obs, rec, returned):
+            ctx.notes["sequence_judgement_skipped_ambiguous"] = ctx.notes.get("sequence_judgement_skipped_ambiguous", 0) + 1
         elif not rec["fresh"]:
             why = "connection closed by T_Disconnect" if not rec["ref_open"] else f"expected number {rec['ref_R']}"
             ctx.fail("C43:response:wrong-sequence-number", inp, f"request #{qi} returned frame #{rec['i']} carrying number {seq}; reference at arrival: {why}")
@@ -341,6 +362,8 @@ def judge(ctx, case, obs) -> None:
         rec = cands[i]
         if not rec["ref_open"]:
             ctx.fail("C43:ack:no-open-connection", inp, f"T_ACK({s['seq']}) sent to {s['dst']} for frame #{rec['i']}: no open connection to that device at arrival")
+        elif not (rec["fresh"] or rec["repeat"]) and _ambiguous_before(obs, rec, returned):
+            ctx.notes["sequence_judgement_skipped_ambiguous"] = ctx.notes.get("sequence_judgement_skipped_ambiguous", 0) + 1
         elif not (rec["fresh"] or rec["repeat"]):
             ctx.fail("C43:ack:number-out-of-window", inp, f"T_ACK({s['seq']}) sent for frame #{rec['i']} while the expected number was {rec['ref_R']}")
 
@@ -482,7 +505,7 @@ def _hyp_oracle(ctx, case) -> None:
 
 
 def _hyp_shard(ctx, n: int) -> None:
-    hyp_search(ctx, cases(), _hyp_oracle, n)
+    hyp_search(ctx, cases(), _hyp_oracle, n, shrink_cap_s=6.0 if ctx.quick else 40.0)
 
 
 def _special_shard(ctx, which: str) -> None:
